@@ -223,6 +223,22 @@ Theorem C13_h23_response_dump_content : forall St i o w ds fs (r : rfn St) b0 si
 Proof. exact @h23_recv_content. Qed.
 Print Assumptions C13_h23_response_dump_content.
 
+(* several exchanges on one client / connection: a dumper that belongs to one of them (request
+   level) receives exactly what that exchange alone gives it, nothing of the ones before or after;
+   a dumper present in all of them receives the concatenation, in order *)
+Theorem C13_exchange_isolation : forall i w (before : list (list dumper * list hook)) (ds : list dumper) hs
+                                        (after : list (list dumper * list hook)),
+  (forall x, In x before -> ~ In i (map fst (fst x))) ->
+  (forall x, In x after -> ~ In i (map fst (fst x))) ->
+  content i w (run_sequence (before ++ (ds, hs) :: after)) = content i w (run_hooks ds hs).
+Proof. exact exchange_isolation. Qed.
+Print Assumptions C13_exchange_isolation.
+
+Theorem C13_sequence_concatenates : forall i w xs,
+  content i w (run_sequence xs) = flat_map (fun x => content i w (run_hooks (fst x) (snd x))) xs.
+Proof. exact sequence_concatenates. Qed.
+Print Assumptions C13_sequence_concatenates.
+
 (* ---- tie to the source text (tables regenerated from the Go files by gosync on every run) ---- *)
 (* the model's writer resolution is the fall-back chain written in dump.go, for every option
    record and every part *)
